@@ -58,7 +58,8 @@ def translate():
             import difflib
             d = [l for l in difflib.unified_diff(open(cur).read().splitlines(), open(tmp).read().splitlines(), lineterm='', n=0) if l[:1] in '+-' and not l.startswith(('+++', '---'))]
             broken.append('BROKEN tables-changed (theorems about the generated tables would have to be re-proved): ' + ' | '.join(x[:120] for x in d[:4]))
-        for script, gen, label in (('translate_lex.py', 'LexTables', 'lexical tables'), ('translate_fmt.py', 'FmtTables', 'fmt: formatter method bodies')):
+        for script, gen, label in (('translate_lex.py', 'LexTables', 'lexical tables'), ('translate_fmt.py', 'FmtTables', 'fmt: formatter method bodies'),
+                                   ('translate_num.py', 'NumTables', 'num: Number accessor arms')):
             tl = os.path.join(VERIF, 'tools', script)
             if not os.path.exists(tl):
                 continue
@@ -69,16 +70,16 @@ def translate():
             def differs():
                 return os.path.exists(tmp2) and os.path.exists(cur2) and open(tmp2).read() != open(cur2).read()
             if differs() and (time.sleep(3) or differs()):       # re-read once: a concurrent main-mode run may be rewriting the shared file
-                if gen == 'FmtTables':
+                if gen in ('FmtTables', 'NumTables'):
                     import difflib
                     d = [l for l in difflib.unified_diff(open(cur2).read().splitlines(), open(tmp2).read().splitlines(), lineterm='', n=0) if l[:1] in '+-' and not l.startswith(('+++', '---'))]
-                    broken.append('BROKEN fmt:tables-changed (Proofs/SerFmt.v would have to be re-proved against the translated method bodies): ' + ' | '.join(x[:140] for x in d[:4]))
+                    broken.append('BROKEN %s:tables-changed (%s would have to be re-proved against the translated source): ' % (('fmt', 'Proofs/SerFmt.v') if gen == 'FmtTables' else ('num', 'Proofs/NumAccSrc.v')) + ' | '.join(x[:140] for x in d[:4]))
                 else:
                     broken.append('BROKEN lexical tables changed (theorems about the generated lexical tables would have to be re-proved)')
         return broken, out
     rc, out = sh(['python3', os.path.join(VERIF, 'tools', 'translate.py'), '--repo', REPO])
     broken = [l for l in out.splitlines() if l.startswith('BROKEN')]
-    for script in ('translate_lex.py', 'translate_fmt.py'):
+    for script in ('translate_lex.py', 'translate_fmt.py', 'translate_num.py'):
         if os.path.exists(os.path.join(VERIF, 'tools', script)):
             rc2, out2 = sh(['python3', os.path.join(VERIF, 'tools', script), '--repo', REPO])
             broken += [l for l in out2.splitlines() if l.startswith('BROKEN')]
@@ -332,6 +333,8 @@ def tie_relevant(pid, broken_line):
     item = m.group(1) if m else ''
     if item in SER_ITEMS or item.startswith('fmt') or broken_line.startswith('BROKEN fmt:'):
         return pid in SER_PROPS
+    if broken_line.startswith('BROKEN num:'):
+        return pid in ('C06', 'C18', 'C20')
     if item.startswith('lexical') or 'lexical' in broken_line or item.upper().startswith('LEX') or item.startswith('BASE10') or item.startswith('POW5') or item.startswith('F32_') or item.startswith('F64_'):
         return pid in LEX_PROPS
     if item == 'tables-changed':
